@@ -1425,6 +1425,11 @@ impl ASN1Value {
                 ty: ASN1Type::ElsewhereDeclaredType(elsewhere),
                 ..
             })) => {
+                if supertypes.contains(&elsewhere.identifier) {
+                    // `A ::= B`, `B ::= A`: an alias cycle has no enumerals or distinguished
+                    // values, and following it would never end
+                    return Ok(None);
+                }
                 supertypes.push(elsewhere.identifier.clone());
                 Self::link_enum_or_distinguished(tlds, elsewhere, identifier, supertypes)
             }
